@@ -582,6 +582,26 @@ class Interp:
             if len(args) == 1 and isinstance(args[0], tuple):
                 return args[0]
             return tuple(args)
+        if k == 'CXXMemberCallExpr' and 'obj' in n and cs.startswith(('std::unordered_set::', 'std::set::')) and last in ('insert', 'emplace', 'erase', 'size', 'empty', 'clear'):
+            o = self.eval(fn, S[n['obj']], env)
+            if isinstance(o, set):
+                args = [self.eval(fn, S[a], env) for a in n.get('args', [])]
+                if last in ('insert', 'emplace') and len(args) == 1:
+                    x = tuple(args[0]) if isinstance(args[0], list) else args[0]
+                    isnew = x not in o
+                    o.add(x)
+                    return (('setit', o, x), isnew)
+                if last == 'erase' and len(args) == 1:
+                    had = args[0] in o
+                    o.discard(args[0])
+                    return int(had)
+                if last == 'size':
+                    return len(o)
+                if last == 'empty':
+                    return not o
+                if last == 'clear':
+                    o.clear()
+                    return None
         if k == 'CXXMemberCallExpr' and 'obj' in n and cs.startswith(('std::unordered_set::', 'std::set::')) and last in ('contains', 'count') and len(n.get('args', [])) == 1:
             o = self.eval(fn, S[n['obj']], env)
             x = self.eval(fn, S[n['args'][0]], env)
